@@ -213,6 +213,10 @@ func init() {
 			x.cfg.MergeAll = true
 			return ret1(st, nil)
 		},
+		"NoUnderflow": func(x *Exec, st *State, fr *Frame, args []Value, site ssa.Instruction) []Result {
+			x.tf.NoUnderflow = true
+			return ret1(st, nil)
+		},
 		"FirstAnswer": func(x *Exec, st *State, fr *Frame, args []Value, site ssa.Instruction) []Result {
 			x.cfg.FirstAnswer = true
 			return ret1(st, nil)
